@@ -380,6 +380,7 @@ pub struct CIDFont {
 
 
 #[derive(Object, ObjectWrite, Debug, DataSize, DeepClone)]
+#[pdf(Type="FontDescriptor?")]
 pub struct FontDescriptor {
     #[pdf(key="FontName")]
     pub font_name: Name,
